@@ -757,3 +757,331 @@ def input_label_functions(case):
                 for nme in b.get("labels", []):
                     res[nme] = fn_of.get(b["id"])
     return res
+
+
+# ------------------------------------------------------------------ C04
+def check_aux(run, lst, ob):
+    import gtirb
+    viol = []
+    ctr = {"expressions_compared": 0, "annotations_compared": 0,
+           "patch_expressions_compared": 0}
+    case = run.case
+    bu = run.bu
+    m = bu.module
+    ectx = edit_context(case)
+    sizes = m.aux_data["symbolicExpressionSizes"].data \
+        if "symbolicExpressionSizes" in m.aux_data else {}
+    # recorded patch expressions: invocation (edit id) -> {off: summary}
+    rec_by_eid = {}
+    for a in run.rec.assembled:
+        if a["summary"] is not None:
+            rec_by_eid[a["patch"].eid] = a["summary"]
+    # unique symbols per name
+    by_name = {}
+    for s in m.symbols:
+        by_name.setdefault(s.name, []).append(s)
+    for nme, ss in by_name.items():
+        if len(ss) > 1:
+            viol.append({"key": "aux:duplicate-symbol-name", "msg": nme})
+    size_by_iv = {}
+    for off, sz in sizes.items():
+        size_by_iv.setdefault(id(off.element_id), {})[off.displacement] = sz
+    for si, ivs in enumerate(lst.secs):
+        for ii, toks in enumerate(ivs):
+            bi = bu.intervals[si][ii]
+            exp = {}
+            patch_start = {}
+            for t in toks:
+                if t.t in "ID" and t.patch is not None and \
+                        t.patch not in patch_start:
+                    patch_start[t.patch] = t.ivpos
+            for t in toks:
+                if t.t in "ID" and t.target is not None and t.sym:
+                    exp[t.ivpos + t.sym[0]] = t
+            got = dict(bi.symbolic_expressions)
+            for off in sorted(set(exp) | set(got)):
+                t = exp.get(off)
+                e = got.get(off)
+                if t is None:
+                    inside = 0 <= off < bi.size
+                    viol.append({
+                        "key": "aux:expr-unexpected:" + (
+                            "inside" if inside else "outside-interval"),
+                        "msg": f"sec {si} iv {ii} off {off}: {e}"})
+                    continue
+                origin = "patch" if t.patch is not None else "orig"
+                tag = ctx_tag(ectx, t.bid) if t.bid is not None else "patch"
+                if e is None:
+                    viol.append({"key": f"aux:expr-missing:{origin}",
+                                 "msg": f"sec {si} iv {ii} off {off} "
+                                        f"{t.key}->{t.target} ({tag})"})
+                    continue
+                ctr["expressions_compared"] += 1
+                if not isinstance(e, gtirb.SymAddrConst):
+                    viol.append({"key": "aux:expr-kind", "msg": str(e)})
+                    continue
+                want = by_name.get(t.target, [None])[0]
+                if t.patch is not None and not getattr(
+                        label_tok(lst, t.target), "pglobal", True):
+                    # temporary label: the module symbol carries a suffix
+                    cands = [s for n, ss in by_name.items() for s in ss
+                             if n.startswith(t.target + "_")]
+                    want = cands[0] if len(cands) == 1 else None
+                if e.symbol is not want:
+                    viol.append({
+                        "key": f"aux:expr-wrong-symbol:{origin}",
+                        "msg": f"off {off}: {e.symbol.name} is not the "
+                               f"module's {t.target}"})
+                elif e.symbol.module is not m:
+                    viol.append({"key": "aux:expr-symbol-not-in-module",
+                                 "msg": t.target})
+                if e.offset != t.addend:
+                    viol.append({"key": f"aux:expr-addend:{origin}",
+                                 "msg": f"off {off}: {e.offset} != "
+                                        f"{t.addend}"})
+                want_size = t.sym[1]
+                if t.patch is not None:
+                    ctr["patch_expressions_compared"] += 1
+                    summ = rec_by_eid.get(t.patch)
+                    rel = off - patch_start[t.patch]
+                    if summ is not None and rel in summ["exprs"]:
+                        r = summ["exprs"][rel]
+                        attrs = tuple(sorted(str(a) for a in e.attributes))
+                        if r[0] == "const" and attrs != r[3]:
+                            viol.append({"key": "aux:expr-attributes:patch",
+                                         "msg": f"{attrs} != {r[3]}"})
+                        want_size = summ["sizes"].get(rel, want_size)
+                    else:
+                        viol.append({"key": "aux:expr-not-from-assembler",
+                                     "msg": f"off {off}"})
+                elif e.attributes:
+                    viol.append({"key": "aux:expr-attributes:orig",
+                                 "msg": str(e.attributes)})
+                gsz = size_by_iv.get(id(bi), {}).get(off)
+                if gsz != want_size:
+                    viol.append({
+                        "key": f"aux:expr-size:{origin}:" + (
+                            "missing" if gsz is None else "differs"),
+                        "msg": f"off {off}: size {gsz} != {want_size}"})
+            for off in size_by_iv.get(id(bi), {}):
+                if off not in exp:
+                    viol.append({"key": "aux:size-entry-unexpected",
+                                 "msg": f"sec {si} iv {ii} off {off}"})
+    live_iv = {id(bi) for row in bu.intervals for bi in row}
+    for off in sizes:
+        el = off.element_id
+        if id(el) not in live_iv and not (
+                isinstance(el, gtirb.ByteInterval) and el.module is m):
+            viol.append({"key": "aux:size-entry-dangling", "msg": str(off)})
+    # comments / padding
+    pos_of_iv = {}
+    for si, row in enumerate(bu.intervals):
+        for ii, bi in enumerate(row):
+            pos_of_iv[id(bi)] = (si, ii)
+    for table in ("comments", "padding"):
+        data = m.aux_data[table].data if table in m.aux_data else {}
+        got = {}
+        for off, val in data.items():
+            el = off.element_id
+            if isinstance(el, gtirb.ByteInterval):
+                where = pos_of_iv.get(id(el))
+                p = off.displacement
+                size = el.size
+            else:
+                bi = getattr(el, "byte_interval", None)
+                where = pos_of_iv.get(id(bi)) if bi is not None else None
+                p = (el.offset + off.displacement) if bi is not None else None
+                size = bi.size if bi is not None else 0
+                if bi is not None and not (
+                        0 <= off.displacement <= el.size):
+                    viol.append({"key": f"aux:{table}:outside-block",
+                                 "msg": f"{val}: disp {off.displacement} "
+                                        f"block size {el.size}"})
+            if where is None:
+                viol.append({"key": f"aux:{table}:dangling-element",
+                             "msg": f"{val}"})
+                continue
+            if not (0 <= p < size):
+                viol.append({"key": f"aux:{table}:outside-interval",
+                             "msg": f"{val} at {p} size {size}"})
+            got.setdefault(val, []).append(where + (p,))
+        exp = {}
+        for si, ii, t in lst.all_tokens():
+            if t.t in "ID":
+                for k, v in t.ann.items():
+                    if k.split("@")[0] == table:
+                        exp.setdefault(v, []).append((si, ii, t.ivpos))
+        for v in sorted(set(exp) | set(got), key=str):
+            ctr["annotations_compared"] += 1
+            e, g = sorted(exp.get(v, [])), sorted(got.get(v, []))
+            if e == g:
+                continue
+            if not g:
+                viol.append({"key": f"aux:{table}:lost",
+                             "msg": f"{v} expected at {e}"})
+            elif not e:
+                viol.append({"key": f"aux:{table}:survived-removal",
+                             "msg": f"{v} at {g}"})
+            else:
+                viol.append({"key": f"aux:{table}:moved",
+                             "msg": f"{v}: expected {e} got {g}"})
+    return viol, ctr
+
+
+def label_tok(lst, name):
+    for si, ii, t in lst.all_tokens():
+        if t.t == "L" and t.name == name:
+            return t
+    return None
+
+
+# ------------------------------------------------------------------ C06
+def check_functions(run, lst, ob):
+    import gtirb
+    viol = []
+    ctr = {"instruction_attributions_compared": 0, "functions_compared": 0,
+           "entries_compared": 0}
+    case = run.case
+    bu = run.bu
+    m = bu.module
+    fb = m.aux_data.get("functionBlocks")
+    fe = m.aux_data.get("functionEntries")
+    fnm = m.aux_data.get("functionNames")
+    if fb is None or fe is None or fnm is None:
+        if case.get("funcs"):
+            viol.append({"key": "fn:table-missing", "msg": ""})
+        return viol, ctr
+    fb, fe, fnm = fb.data, fe.data, fnm.data
+    name_of = {}
+    for fu, sym in fnm.items():
+        name_of[fu] = getattr(sym, "name", None)
+        if not isinstance(sym, gtirb.Symbol) or sym.module is not m:
+            viol.append({"key": "fn:name-symbol-not-in-module",
+                         "msg": str(fu)})
+    if set(fb) != set(fe) or set(fb) != set(fnm):
+        viol.append({"key": "fn:tables-disagree-on-functions",
+                     "msg": f"blocks {len(fb)} entries {len(fe)} names "
+                            f"{len(fnm)}"})
+    owner = {}
+    for fu, blocks in fb.items():
+        if not blocks:
+            viol.append({"key": "fn:function-without-blocks-kept",
+                         "msg": str(name_of.get(fu))})
+        for b in blocks:
+            if not isinstance(b, gtirb.CodeBlock):
+                viol.append({"key": "fn:non-code-block-in-function",
+                             "msg": f"{type(b).__name__} in "
+                                    f"{name_of.get(fu)}"})
+                continue
+            if ob.blockpos(b) is None or b.module is not m:
+                viol.append({"key": "fn:detached-block-in-functionBlocks",
+                             "msg": str(name_of.get(fu))})
+                continue
+            if id(b) in owner and owner[id(b)] != fu:
+                viol.append({"key": "fn:block-in-two-functions",
+                             "msg": f"{ob.blockpos(b)}"})
+            owner[id(b)] = fu
+    for fu, blocks in fe.items():
+        for b in blocks:
+            if b not in fb.get(fu, ()):
+                viol.append({"key": "fn:entry-not-in-blocks",
+                             "msg": str(name_of.get(fu))})
+    # per-instruction attribution
+    for (si, pos), info in ob.instrs.items():
+        tok = None
+        for t in lst_instr_index(lst).get((si, pos), []):
+            tok = t
+        if tok is None:
+            continue
+        ctr["instruction_attributions_compared"] += 1
+        got = name_of.get(owner.get(id(info["block"])))
+        if got != tok.fn:
+            origin = "patch" if tok.patch is not None else "orig"
+            viol.append({
+                "key": f"fn:instruction-in-wrong-function:{origin}",
+                "msg": f"{tok.key} at {(si, pos)}: expected {tok.fn} got "
+                       f"{got}"})
+    # function set: functions with surviving code
+    alive = {}
+    for si, ii, t in lst.all_tokens():
+        if t.t == "I" and t.fn is not None:
+            alive[t.fn] = alive.get(t.fn, 0) + 1
+    got_fns = {name_of[fu] for fu in fb}
+    for f in case.get("funcs", []):
+        ctr["functions_compared"] += 1
+        nme = f["name"]
+        if alive.get(nme) and nme not in got_fns:
+            viol.append({"key": "fn:function-with-code-vanished",
+                         "msg": nme})
+        if not alive.get(nme) and nme in got_fns:
+            # a retained zero-sized block may keep the function alive
+            fu = next(u for u in fb if name_of[u] == nme)
+            if any(b.size for b in fb[fu]):
+                viol.append({"key": "fn:function-without-code-kept",
+                             "msg": nme})
+    # entries
+    exp_entries = expected_entries(case, lst)
+    for f in case.get("funcs", []):
+        nme = f["name"]
+        if nme not in got_fns:
+            continue
+        fu = next(u for u in fb if name_of[u] == nme)
+        exp = sorted(exp_entries.get(nme, []))
+        # a retained zero-sized block (documented) may stay an entry
+        got = sorted(p for p, b in ((ob.blockpos(b), b) for b in fe[fu])
+                     if p is not None and (b.size or p in exp))
+        ctr["entries_compared"] += 1
+        if got != exp:
+            viol.append({
+                "key": "fn:entries-differ:" + (
+                    "missing" if set(exp) - set(got) else "extra"),
+                "msg": f"{nme}: expected entry positions {exp} got {got}"})
+    return viol, ctr
+
+
+def lst_instr_index(lst):
+    idx = getattr(lst, "_instr_index", None)
+    if idx is None:
+        idx = {}
+        for si, ii, t in lst.all_tokens():
+            if t.t == "I":
+                idx.setdefault((si, t.pos), []).append(t)
+        lst._instr_index = idx
+    return idx
+
+
+def expected_entries(case, lst):
+    """function name -> list of expected entry block positions"""
+    order = {}
+    seq = {}
+    for si, sec in enumerate(case["secs"]):
+        k = 0
+        for iv in sec["ivs"]:
+            for b in iv["blocks"]:
+                order[b["id"]] = (si, k)
+                seq[(si, k)] = b
+                k += 1
+    bpos = {}
+    for si, ii, t in lst.all_tokens():
+        if t.t == "B":
+            bpos[t.bid] = (si, t.pos)
+    fn_of = {b: f["name"] for f in case.get("funcs", []) for b in f["blocks"]}
+    res = {}
+    for f in case.get("funcs", []):
+        out = set()
+        for b in f["entries"]:
+            cur = b
+            while True:
+                if cur in lst.proxy_deleted:
+                    break
+                if cur not in lst.deleted_blocks:
+                    out.add(bpos[cur])
+                    break
+                si, k = order[cur]
+                nb = seq.get((si, k + 1))
+                if nb is None or not nb["code"] or \
+                        fn_of.get(nb["id"]) != f["name"]:
+                    break
+                cur = nb["id"]
+        res[f["name"]] = sorted(out)
+    return res
